@@ -474,8 +474,8 @@ Proof.
   { unfold step20. rewrite Hw. destruct (ph m); reflexivity. }
   unfold run20. cbn [fold_left]. rewrite E1. unfold with_st.
   destruct (st m) as [ks0 kl0 tkl0 [mb mt mbs mck]]. simpl in HT.
-  destruct ks0, tkl0 as [t|]; destruct mbs, mt as [tb|]; simpl; rewrite ?HT; simpl;
-    try (destruct (mem t mck) eqn:Et; simpl); rewrite ?HT; simpl; eauto.
+  destruct ks0, tkl0 as [t|]; destruct mbs, mt as [tb|]; simpl; unfold initramfs_kernel; simpl; rewrite ?HT; simpl;
+    try (destruct (mem t mck) eqn:Et; simpl); unfold initramfs_kernel; simpl; rewrite ?HT; simpl; eauto.
 Qed.
 
 (* same for the base: base_status still trying when the initramfs runs means the trial failed; the base is mounted *)
